@@ -253,6 +253,42 @@ pub fn limits() -> Vec<Limit> {
             expect: if n + 1 <= 256 { p(&[&(n + 1).to_string()]) } else { Expect::Reject },
         });
     }
+    // the variable that crosses the 256-slot limit is not declared by `var`: a catch variable, a loop
+    // variable (with the loop's hidden slots), a local class, a local function, a variable of a nested
+    // block. How many hidden slots each form needs is the compiler's business, so the number of plain
+    // variables in front sweeps across the boundary and every instance must be rejected or run
+    // correctly: the new variable, one declared after it and the last plain one are all read back.
+    let forms: [(&str, &str, &[&str]); 9] = [
+        ("catch_variable_last", "try { throw \"thrown\"; } catch e { print(e); print(LAST); } try { throw \"again\"; } catch e { print(e); }", &["thrown", "SKIP", "again"]),
+        ("for_variable_last", "for i in 5..6 { print(i); print(LAST); } for i in 7..8 { print(i); }", &["5", "SKIP", "7"]),
+        ("local_class_last", "#[constructor(new)] class K { fn m(self) { return \"m\"; } } print(K.new().m()); print(LAST);", &["m"]),
+        ("local_function_last", "fn g() { return \"g\"; } print(g()); print(LAST);", &["g"]),
+        ("catch_variable", "try { throw \"thrown\"; } catch e { var w = \"w\"; print(e); print(w); print(LAST); }", &["thrown", "w"]),
+        ("for_variable", "for i in 5..6 { var w = \"w\"; print(i); print(w); print(LAST); }", &["5", "w"]),
+        ("local_class", "#[constructor(new)] class K { fn m(self) { return \"m\"; } } var w = \"w\"; print(K.new().m()); print(w); print(LAST);", &["m", "w"]),
+        ("local_function", "fn g() { return \"g\"; } var w = \"w\"; print(g()); print(w); print(LAST);", &["g", "w"]),
+        ("block_variable", "{ var z = \"z\"; { var w = \"w\"; print(z); print(w); print(LAST); } }", &["z", "w"]),
+    ];
+    for (form, tail, first) in forms.iter() {
+        for n in 250usize..=257 {
+            let decls: String = (0..n).map(|i| format!("var v{} = {};", i, i)).collect();
+            // SKIP marks where the last plain variable is printed when it is not printed last
+            let mut want: Vec<String> = first.iter().map(|s| if *s == "SKIP" { (n - 1).to_string() } else { s.to_string() }).collect();
+            if !first.contains(&"SKIP") {
+                want.push((n - 1).to_string());
+            }
+            want.push("end".to_string());
+            v.push(Limit {
+                name: format!("locals_then_{}_{}", form, n),
+                source: format!(
+                    "var e = \"global e\"; var i = \"global i\"; var w = \"global w\"; var z = \"global z\";\nfn f() {{ {} {} }}\nf();\nprint(\"end\");",
+                    decls,
+                    tail.replace("LAST", &format!("v{}", n - 1))
+                ),
+                expect: Expect::RejectOrPrints(want),
+            });
+        }
+    }
     // constants per chunk: 65536 distinct number literals fit (indices 0..65535)
     for n in [65535usize, 65536, 65537] {
         let mut s = String::with_capacity(n * 7);
@@ -595,7 +631,7 @@ impl Property for C04 {
     }
 
     fn rule(&self) -> String {
-        "cases: (limits, exhaustive) one parameterised program per encoding limit at limit-1, limit, limit+1 (+2): forward jump distance for if/else/&&/||/while/try/break at 65534..65537 bytes with byte-exact filler, backward loop distance, call/method arguments, parameters (fn and lambda), vec/tuple/map elements and interpolation parts at 254..257, locals at 254..257, captured variables at 255..258, constants per chunk at 65535..65537 (numbers) and with the crossing constant a string, a global's name, a lambda, a named function or a class (65524..65536 numbers before it; each instance is rejected or runs correctly), interpolation depth 7..9; operand sweep: functions whose code ends in an operand byte of every value 0..255 as local slot, argument count, element count and captured-variable index; (scripts) every script of the repository's corpus that compiles; (programs*) generated programs of the mixed/class/scope profiles, with and without recorded-defect shapes; (far_code) generated programs of the exception, scope and mixed profiles placed behind 64-190 KiB of no-op statements in the same chunk, so that every code offset of the program exceeds 16 bits: verified, and run next to the unpadded program, whose printed values and outcome it must reproduce. Oracle: the bytecode verifier (abstract interpretation over every function: instruction boundaries, operand indices, one operand-stack height and one static handler stack per reachable pc, no pop below the frame base, final Return, line table length), the verifier's heights cross-checked against the interpreter's (chunk, pc, height) trace of the same run, no panic while running, and for the limit family the output or rejection known by construction. Non-trivial: a verified function with >=1 branch and height above its arity, or any limit instance; distinct by program text.".into()
+        "cases: (limits, exhaustive) one parameterised program per encoding limit at limit-1, limit, limit+1 (+2): forward jump distance for if/else/&&/||/while/try/break at 65534..65537 bytes with byte-exact filler, backward loop distance, call/method arguments, parameters (fn and lambda), vec/tuple/map elements and interpolation parts at 254..257, locals at 254..257, 250..257 plain variables followed by a catch variable, a loop variable, a local class, a local function or nested-block variables (each instance is rejected or runs correctly), captured variables at 255..258, constants per chunk at 65535..65537 (numbers) and with the crossing constant a string, a global's name, a lambda, a named function or a class (65524..65536 numbers before it; each instance is rejected or runs correctly), interpolation depth 7..9; operand sweep: functions whose code ends in an operand byte of every value 0..255 as local slot, argument count, element count and captured-variable index; (scripts) every script of the repository's corpus that compiles; (programs*) generated programs of the mixed/class/scope profiles, with and without recorded-defect shapes; (far_code) generated programs of the exception, scope and mixed profiles placed behind 64-190 KiB of no-op statements in the same chunk, so that every code offset of the program exceeds 16 bits: verified, and run next to the unpadded program, whose printed values and outcome it must reproduce. Oracle: the bytecode verifier (abstract interpretation over every function: instruction boundaries, operand indices, one operand-stack height and one static handler stack per reachable pc, no pop below the frame base, final Return, line table length), the verifier's heights cross-checked against the interpreter's (chunk, pc, height) trace of the same run, no panic while running, and for the limit family the output or rejection known by construction. Non-trivial: a verified function with >=1 branch and height above its arity, or any limit instance; distinct by program text.".into()
     }
 
     fn assumptions(&self) -> Vec<String> {
